@@ -143,4 +143,22 @@ theorem gen_stepLine_eq (po : ParseOpts) (acc : Acc) (line : List Char) : Gen.rr
   simp only [splitOnChar_ne_nil, Bool.false_eq_true, if_false]
   rfl
 
+/-- the translated rest of `_parse_rfc` (fast path, dispatch loop, decision for a set, set building, single-rule exit) = `parseLines` -/
+theorem gen_tail_eq (po : ParseOpts) (cache : Bool) (s : List Char) (lines : List (List Char)) (f c kw : Bool) :
+    Gen.rrsTail po cache s lines f c kw = parseLines po cache s lines f c kw := by
+  have h1 : Gen.rrsParseRule po = ruleOf po := by funext l; exact gen_parseRule_eq po l
+  have h2 : Gen.rrsStepLine po = stepLine po := by funext a l; exact gen_stepLine_eq po a l
+  unfold Gen.rrsTail parseLines buildRule buildSet wantsSet
+  rw [h1, h2]
+  rfl
+
+/-- **the WHOLE of `_rrulestr._parse_rfc` as translated from source = the model's `parseRfc`**, every text, all options -/
+theorem gen_parseRfc_eq (s0 : List Char) (o : Opts) (kw : Bool) : Gen.rrsParseRfc s0 o kw = parseRfc s0 o kw := by
+  unfold Gen.rrsParseRfc parseRfc
+  rw [gen_prefix_eq_model]
+  by_cases h : (ICal.strip (ICal.upper s0)).isEmpty = true
+  · simp [h, bind, Except.bind]
+  · simp only [h, Bool.false_eq_true, if_false, bind, Except.bind]
+    exact gen_tail_eq _ _ _ _ _ _ _
+
 end RRuleStr
